@@ -1,3 +1,107 @@
-(* placeholder while the pipeline is brought up *)
-From Coq Require Import ZArith List Bool.
-From Verif Require Import Lib.Corr Lib.Storegw_Str Gen.C11 Model.C11.
+(* C11 — Binary index-header answers equal the full index.
+   Property theorems only; each is closed by [exact] of a lemma from Proofs/C11.v.
+   Model: Model/C11.v (BinaryReader.init sampling, postingsOffset loop, LabelValues,
+   LabelNames for one label name of the postings offset table). The three sampling
+   conditions of BinaryReader.init and NotFoundRange come from Gen/C11.v, regenerated
+   from pkg/block/indexheader/binary_reader.go on every run. *)
+From Coq Require Import ZArith NArith List Bool Sorted.
+Import ListNotations.
+From Verif Require Import Lib.Corr Lib.Storegw_Str Gen.C11 Model.C11 Proofs.C11.
+Open Scope Z_scope.
+
+(* The specification [spec_range tbl lv v] is "what the full index says":
+   the posting list of a value present in the table starts 4 bytes after its own
+   offset and ends 4 bytes before the next entry's offset (for the last value of
+   the name: lv = lastValOffset); a value that is not in the table is NotFoundRange. *)
+Theorem C11_spec_found : forall tbl lv pre v po d',
+  StronglySorted str_lt (keys tbl) -> tbl = pre ++ (v, po) :: d' ->
+  spec_range tbl lv v = (po + 4, match d' with [] => lv | (_, po') :: _ => po' - 4 end).
+Proof. exact spec_found_at. Qed.
+Print Assumptions C11_spec_found.
+
+Theorem C11_spec_missing : forall tbl lv v, ~ In v (keys tbl) -> spec_range tbl lv v = (-1, -1).
+Proof. exact spec_missing. Qed.
+Print Assumptions C11_spec_missing.
+
+(* BinaryReader.init, every sampling rate, every non-empty table: the in-memory
+   sampled offsets are entries of the table at strictly increasing positions, the
+   first and the last value of the name are always present. *)
+Theorem C11_sampled_ok : forall n tbl, 1 <= n -> tbl <> [] -> good_samples tbl (init_sample n tbl).
+Proof. exact sampled_ok. Qed.
+Print Assumptions C11_sampled_ok.
+
+(* Main theorem. For EVERY table of a label name (values strictly increasing, as
+   the index writer emits them), EVERY sampling rate n >= 1 and EVERY sorted list of
+   requested values (duplicates, absent values, values before the first / after the
+   last one included), the postingsOffset loop terminates within its fuel, never
+   runs off the name's entries (no decbuf error), and returns exactly one range per
+   requested value, in order: the full-index location of the value, or NotFoundRange. *)
+Theorem C11_offsets_eq_spec : forall n tbl next_off vs,
+  1 <= n -> tbl <> [] -> StronglySorted str_lt (keys tbl) -> StronglySorted str_le vs ->
+  postings_offset (init_sample n tbl) (last_val_offset next_off) tbl vs
+  = OK (map (spec_range tbl (last_val_offset next_off)) vs).
+Proof. exact offsets_eq_spec. Qed.
+Print Assumptions C11_offsets_eq_spec.
+
+(* The same for any sampled-offset list that satisfies the invariant (not only the one
+   built by init): the lookup loop is correct for every "good" sample. *)
+Theorem C11_offsets_eq_spec_any_sample : forall tbl lv,
+  StronglySorted str_lt (keys tbl) -> forall offs, good_samples tbl offs ->
+  forall vs, StronglySorted str_le vs ->
+  postings_offset offs lv tbl vs = OK (map (spec_range tbl lv) vs).
+Proof. exact postings_offset_ok. Qed.
+Print Assumptions C11_offsets_eq_spec_any_sample.
+
+(* LabelValues returns every value of the name, in table order, for every sampling rate. *)
+Theorem C11_label_values_eq : forall n tbl,
+  1 <= n -> tbl <> [] -> StronglySorted str_lt (keys tbl) ->
+  label_values (init_sample n tbl) tbl = Some (keys tbl).
+Proof. exact label_values_eq. Qed.
+Print Assumptions C11_label_values_eq.
+
+(* LabelNames: sorted, and exactly the non-empty names occurring in the table. *)
+Theorem C11_label_names : forall names,
+  StronglySorted str_le (label_names names)
+  /\ forall s, In s (label_names names) <-> (In s names /\ s <> []).
+Proof. exact label_names_ok. Qed.
+Print Assumptions C11_label_names.
+
+(* Connection with the check: for all valid inputs the model's answers are the
+   specification's, and a case in which the implementation agrees with the model
+   (corr_ok) and the full index agrees with the specification passes pred_ok. *)
+Theorem C11_case_pred : forall n tbl next_off vs,
+  1 <= n -> tbl <> [] -> StronglySorted str_lt (keys tbl) -> StronglySorted str_le vs ->
+  let offs := init_sample n tbl in
+  let lv := last_val_offset next_off in
+  exists out lvs,
+    postings_offset offs lv tbl vs = OK out /\ label_values offs tbl = Some lvs /\
+    out = map (spec_range tbl lv) vs /\ lvs = keys tbl /\
+    corr_ok (CName n tbl next_off offs lv [(vs, Some out, map (spec_range tbl lv) vs)] (Some lvs) (keys tbl)) = true /\
+    pred_ok (CName n tbl next_off offs lv [(vs, Some out, map (spec_range tbl lv) vs)] (Some lvs) (keys tbl)) = true.
+Proof. exact name_case_ok. Qed.
+Print Assumptions C11_case_pred.
+
+(* Non-vacuity: 7 values sampled at rate 3 (samples b,h,n = positions 0,3,6);
+   a request with a value before the first, duplicates, values between samples,
+   absent values and a value after the last one. *)
+Definition ex_tbl : list entry :=
+  [([98%N], 100); ([100%N], 116); ([102%N], 132); ([104%N], 148); ([106%N], 164); ([108%N], 180); ([110%N], 196)].
+Definition ex_vs : list str := [[97]; [98]; [98]; [99]; [102]; [105]; [108]; [108]; [110]; [122]]%N.
+Example C11_nonvacuous :
+  init_sample 3 ex_tbl = [([98]%N, 0%nat); ([104]%N, 3%nat); ([110]%N, 6%nat)]
+  /\ postings_offset (init_sample 3 ex_tbl) (last_val_offset 212) ex_tbl ex_vs
+     = OK [(-1, -1); (104, 112); (104, 112); (-1, -1); (136, 144); (-1, -1); (184, 192); (184, 192); (200, 208); (-1, -1)]
+  /\ 1 <= 3 /\ ex_tbl <> []
+  /\ StronglySorted str_lt (keys ex_tbl) /\ StronglySorted str_le ex_vs
+  /\ label_values (init_sample 3 ex_tbl) ex_tbl = Some (keys ex_tbl).
+Proof.
+  split; [vm_compute; reflexivity|]. split; [vm_compute; reflexivity|].
+  split; [discriminate|]. split; [discriminate|].
+  split; [|split; [|vm_compute; reflexivity]].
+  - repeat (constructor; [|repeat (constructor; [reflexivity|]); try constructor]); constructor.
+  - repeat (constructor; [|repeat (constructor; [discriminate|]); try constructor]); constructor.
+Qed.
+
+Example C11_label_names_nonvacuous :
+  label_names [[]; [98]; [98]; [97]; [97]; [99; 100]]%N = [[97]; [98]; [99; 100]]%N.
+Proof. vm_compute. reflexivity. Qed.
